@@ -328,6 +328,250 @@ func c16ScanFunc(c *Ctx, rel, name, lean string) string {
 		name, rel, lean, t.param, t.param, body)
 }
 
+// ---- statement-by-statement translation of `escape`: a `strings.Builder` and a bool flag updated by one
+// `for i := 0; i < len(s); i++` loop over the bytes of the parameter, then `if flag { return sb.String() }; return s`.
+//
+// The locals become the record `EscSt` (flag, builder contents); every statement is a state transformer
+// (`let st := …`), a block is the chain of its statements, the loop is a fold over `List.range s.length`.
+// `sb.Grow` only reserves capacity (identity).  Anything outside the subset makes the definition `untranslatable`,
+// which breaks `escape_matches_source` in Props/C16.lean.
+
+type c16esc struct {
+	c      *Ctx
+	param  string // the string parameter
+	sb     string // the strings.Builder local
+	flag   string // the bool local
+	table  string // the package-level lookup table
+	ok     bool
+	why    string
+}
+
+func (t *c16esc) fail(why string) string {
+	if t.ok {
+		t.ok = false
+		t.why = why
+	}
+	return "st"
+}
+
+func (t *c16esc) squash(n ast.Node) string { return strings.Join(strings.Fields(t.c.Print(n)), "") }
+
+// a []byte-valued argument of sb.WriteString
+func (t *c16esc) bytesExpr(e ast.Expr) string {
+	switch v := e.(type) {
+	case *ast.SliceExpr:
+		if id, ok := v.X.(*ast.Ident); ok && id.Name == t.param && v.Low == nil && v.High != nil && !v.Slice3 {
+			if h, ok := v.High.(*ast.Ident); ok && h.Name == "i" {
+				return "(" + t.param + ".take i)"
+			}
+		}
+	case *ast.IndexExpr:
+		if id, ok := v.X.(*ast.Ident); ok && id.Name == t.table {
+			if ix, ok := v.Index.(*ast.Ident); ok && ix.Name == "c" {
+				return "(" + t.table + ".getD c.toNat [])"
+			}
+		}
+	}
+	return t.fail("bytes expression " + t.c.Print(e))
+}
+
+func (t *c16esc) cond(e ast.Expr) string {
+	switch v := e.(type) {
+	case *ast.ParenExpr:
+		return t.cond(v.X)
+	case *ast.Ident:
+		if v.Name == t.flag {
+			return "st.flag"
+		}
+	case *ast.UnaryExpr:
+		if v.Op == token.NOT {
+			return "(!" + t.cond(v.X) + ")"
+		}
+	case *ast.BinaryExpr:
+		switch v.Op {
+		case token.LAND:
+			return "(" + t.cond(v.X) + " && " + t.cond(v.Y) + ")"
+		case token.LOR:
+			return "(" + t.cond(v.X) + " || " + t.cond(v.Y) + ")"
+		case token.LSS:
+			if t.squash(v.X) == "int(c)" && t.squash(v.Y) == "len("+t.table+")" {
+				return "(decide (c.toNat < " + t.table + ".length))"
+			}
+		case token.NEQ:
+			if t.squash(v.Y) == `""` {
+				return "(" + t.bytesExpr(v.X) + " != [])"
+			}
+		case token.EQL:
+			if t.squash(v.Y) == `""` {
+				return "(" + t.bytesExpr(v.X) + " == [])"
+			}
+		}
+	}
+	return t.fail("condition " + t.c.Print(e))
+}
+
+// one statement as an expression of type EscSt (with `st`, `i`, `c` in scope)
+func (t *c16esc) stmt(s ast.Stmt) string {
+	switch v := s.(type) {
+	case *ast.ExprStmt:
+		if call, ok := v.X.(*ast.CallExpr); ok {
+			if sel, ok := call.Fun.(*ast.SelectorExpr); ok {
+				if id, ok := sel.X.(*ast.Ident); ok && id.Name == t.sb && len(call.Args) == 1 {
+					switch sel.Sel.Name {
+					case "Grow":
+						return "st"
+					case "WriteString":
+						return "{ st with sb := st.sb ++ " + t.bytesExpr(call.Args[0]) + " }"
+					case "WriteByte":
+						if a, ok := call.Args[0].(*ast.Ident); ok && a.Name == "c" {
+							return "{ st with sb := st.sb ++ [c] }"
+						}
+					}
+				}
+			}
+		}
+	case *ast.AssignStmt:
+		if v.Tok == token.ASSIGN && len(v.Lhs) == 1 && len(v.Rhs) == 1 {
+			if id, ok := v.Lhs[0].(*ast.Ident); ok && id.Name == t.flag {
+				if b, ok := v.Rhs[0].(*ast.Ident); ok && (b.Name == "true" || b.Name == "false") {
+					return "{ st with flag := " + b.Name + " }"
+				}
+			}
+		}
+	case *ast.IfStmt:
+		if v.Init == nil {
+			els := "st"
+			switch e := v.Else.(type) {
+			case nil:
+			case *ast.BlockStmt:
+				els = t.block(e.List)
+			case *ast.IfStmt:
+				els = t.stmt(e)
+			default:
+				return t.fail("else " + t.c.Print(v.Else))
+			}
+			return "(if " + t.cond(v.Cond) + " then " + t.block(v.Body.List) + " else " + els + ")"
+		}
+	}
+	return t.fail("statement " + t.c.Print(s))
+}
+
+func (t *c16esc) block(stmts []ast.Stmt) string {
+	var sb strings.Builder
+	sb.WriteString("(")
+	for _, s := range stmts {
+		if a, ok := s.(*ast.AssignStmt); ok && a.Tok == token.DEFINE && len(a.Lhs) == 1 && len(a.Rhs) == 1 {
+			// c := s[i]
+			if id, ok := a.Lhs[0].(*ast.Ident); ok && id.Name == "c" && t.squash(a.Rhs[0]) == t.param+"[i]" {
+				sb.WriteString("let c : UInt8 := " + t.param + ".getD i 0; ")
+				continue
+			}
+			t.fail("definition " + t.c.Print(s))
+			continue
+		}
+		sb.WriteString("let st : EscSt := " + t.stmt(s) + "; ")
+	}
+	sb.WriteString("st)")
+	return sb.String()
+}
+
+const c16EscPrelude = `/-- the locals of ` + "`escape`" + `: the flag ` + "`hasMapped`" + ` and the contents of the ` + "`strings.Builder`" + ` -/
+structure EscSt where
+  flag : Bool
+  sb : List UInt8
+
+`
+
+func c16EscapeFunc(c *Ctx, rel, name string) string {
+	fd := c.Func(rel, name)
+	bad := func(why string) string {
+		return fmt.Sprintf("-- %s: %s\n", name, strings.ReplaceAll(why, "\n", " ")) + untranslatable("escape")
+	}
+	if fd == nil || fd.Body == nil || fd.Type.Params == nil || len(fd.Type.Params.List) != 1 || len(fd.Type.Params.List[0].Names) != 1 {
+		return bad("signature")
+	}
+	t := &c16esc{c: c, param: fd.Type.Params.List[0].Names[0].Name, table: "escapeLookup", ok: true}
+	st := fd.Body.List
+	if len(st) != 5 {
+		return bad("expected 5 top-level statements")
+	}
+	// var sb strings.Builder
+	if ds, ok := st[0].(*ast.DeclStmt); ok && strings.HasPrefix(t.squash(ds), "var") && strings.HasSuffix(t.squash(ds), "strings.Builder") {
+		if gd, ok := ds.Decl.(*ast.GenDecl); ok && len(gd.Specs) == 1 {
+			if vs, ok := gd.Specs[0].(*ast.ValueSpec); ok && len(vs.Names) == 1 && len(vs.Values) == 0 {
+				t.sb = vs.Names[0].Name
+			}
+		}
+	}
+	if t.sb == "" {
+		return bad("builder declaration " + c.Print(st[0]))
+	}
+	// hasMapped := false
+	init := ""
+	if a, ok := st[1].(*ast.AssignStmt); ok && a.Tok == token.DEFINE && len(a.Lhs) == 1 && len(a.Rhs) == 1 {
+		if id, ok := a.Lhs[0].(*ast.Ident); ok {
+			if b, ok := a.Rhs[0].(*ast.Ident); ok && (b.Name == "true" || b.Name == "false") {
+				t.flag, init = id.Name, b.Name
+			}
+		}
+	}
+	if t.flag == "" {
+		return bad("flag initialisation " + c.Print(st[1]))
+	}
+	// for i := 0; i < len(s); i++ { … }
+	loop, ok := st[2].(*ast.ForStmt)
+	if !ok || loop.Init == nil || loop.Cond == nil || loop.Post == nil || t.squash(loop.Init) != "i:=0" ||
+		t.squash(loop.Cond) != "i<len("+t.param+")" || t.squash(loop.Post) != "i++" {
+		return bad("loop header " + c.Print(st[2]))
+	}
+	body := t.block(loop.Body.List)
+	// if hasMapped { return sb.String() }; return s
+	fin, ok := st[3].(*ast.IfStmt)
+	if !ok || fin.Init != nil || fin.Else != nil || len(fin.Body.List) != 1 || t.squash(fin.Body.List[0]) != "return"+t.sb+".String()" {
+		return bad("final if " + c.Print(st[3]))
+	}
+	finCond := t.cond(fin.Cond)
+	if t.squash(st[4]) != "return"+t.param {
+		return bad("final return " + c.Print(st[4]))
+	}
+	if !t.ok {
+		return bad(t.why)
+	}
+	return fmt.Sprintf("/-- the loop body of `%s` (%s), statement by statement: `i` the index, `st` the locals -/\ndef escapeBody (%s : List UInt8) (i : Nat) (st : EscSt) : EscSt :=\n  %s\n\n"+
+		"/-- `%s` of %s: the builder starts empty, `%s := %s`, the loop runs over `0 … len(%s)-1`, then `if %s { return %s.String() }; return %s` -/\ndef escape (%s : List UInt8) : List UInt8 :=\n  let st : EscSt := ⟨%s, []⟩\n  let st : EscSt := (List.range %s.length).foldl (fun st i => escapeBody %s i st) st\n  if %s then st.sb else %s\n\n",
+		name, rel, t.param, body,
+		name, rel, t.flag, init, t.param, t.flag, t.sb, t.param, t.param, init, t.param, t.param, finCond, t.param)
+}
+
+// c16EmulatedKeys: inside fd, the statements `expCtx.Keys["<lit>"] = <expr>` in source order, as (key, squashed right-hand
+// side), and the squashed initialiser of the `Keys:` field of the context literal before them.
+func c16EmulatedKeys(c *Ctx, fd *ast.FuncDecl) (string, [][2]string, bool) {
+	if fd == nil || fd.Body == nil {
+		return "", nil, false
+	}
+	keysInit := ""
+	var rows [][2]string
+	sq := func(n ast.Node) string { return strings.Join(strings.Fields(c.Print(n)), "") }
+	ast.Inspect(fd.Body, func(n ast.Node) bool {
+		switch v := n.(type) {
+		case *ast.KeyValueExpr:
+			if id, ok := v.Key.(*ast.Ident); ok && id.Name == "Keys" && keysInit == "" {
+				keysInit = sq(v.Value)
+			}
+		case *ast.AssignStmt:
+			if v.Tok == token.ASSIGN && len(v.Lhs) == 1 && len(v.Rhs) == 1 {
+				if ix, ok := v.Lhs[0].(*ast.IndexExpr); ok && sq(ix.X) == "expCtx.Keys" {
+					if k, ok := StringLit(ix.Index); ok {
+						rows = append(rows, [2]string{k, sq(v.Rhs[0])})
+					}
+				}
+			}
+		}
+		return true
+	})
+	return keysInit, rows, keysInit != "" && len(rows) > 0
+}
+
 // c16KeySwitch: the cases of `switch key` in GetKey whose body is `return s.json(<bool>, <bool>)`.
 func c16KeySwitch(c *Ctx, fd *ast.FuncDecl) (string, bool) {
 	if fd == nil {
@@ -391,7 +635,17 @@ func c16Outline(c *Ctx, fd *ast.FuncDecl) ([]string, bool) {
 		return nil, false
 	}
 	var out []string
-	squash := func(n ast.Node) string { return strings.Join(strings.Fields(c.Print(n)), "") }
+	squash := func(n ast.Node) string {
+		// a doc comment on a local declaration (`// Output array` above `var sb …`) is not part of the statement
+		if ds, ok := n.(*ast.DeclStmt); ok {
+			if gd, ok := ds.Decl.(*ast.GenDecl); ok && gd.Doc != nil {
+				cp := *gd
+				cp.Doc = nil
+				return strings.Join(strings.Fields(c.Print(&ast.DeclStmt{Decl: &cp})), "")
+			}
+		}
+		return strings.Join(strings.Fields(c.Print(n)), "")
+	}
 	var walk func(list []ast.Stmt)
 	walk = func(list []ast.Stmt) {
 		for _, st := range list {
@@ -653,6 +907,25 @@ func init() {
 
 		sb.WriteString(c16Prelude)
 		sb.WriteString(c16ScanFunc(c, mj, "isNumeric", "isNumeric"))
+		sb.WriteString(c16EscPrelude)
+		sb.WriteString(c16EscapeFunc(c, mj, "escape"))
+
+		// rare's array convention and the printing of `rare expression`
+		if n, ok := IntLit(c.Var("pkg/expressions/stage.go", "ArraySeparator")); ok {
+			fmt.Fprintf(&sb, "/-- `expressions.ArraySeparator` (pkg/expressions/stage.go) -/\ndef arraySeparator : Nat := %d\n\n", n)
+		} else {
+			sb.WriteString(untranslatable("arraySeparator"))
+		}
+		if init, rows, ok := c16EmulatedKeys(c, c.Func("cmd/expressions.go", "expressionFunction")); ok {
+			var parts []string
+			for _, r := range rows {
+				parts = append(parts, fmt.Sprintf("(%s, %s)", c16Bytes(r[0]), leanStr(r[1])))
+			}
+			fmt.Fprintf(&sb, "/-- `expressionFunction` (cmd/expressions.go): the initialiser of `expCtx.Keys` -/\ndef expressionKeysInit : String := %s\n\n", leanStr(init))
+			fmt.Fprintf(&sb, "/-- … and every later `expCtx.Keys[\"<key>\"] = <expr>` in source order: (key, right-hand side without white space) -/\ndef emulatedKeys : List (List UInt8 × String) :=\n  [%s]\n\n", strings.Join(parts, ",\n   "))
+		} else {
+			sb.WriteString(untranslatable("emulatedKeys"))
+		}
 
 		const ctxFile = "pkg/extractor/sliceSpaceExpressionContext.go"
 		if rows, ok := c16KeySwitch(c, c.Func(ctxFile, "SliceSpaceExpressionContext.GetKey")); ok {
@@ -673,6 +946,8 @@ func init() {
 			{"writeLiteralOutline", mj, "JsonObjectBuilder.WriteLiteral"},
 			{"escapeOutline", mj, "escape"},
 			{"regexTableOutline", "pkg/matchers/fastregex/re2.go", "createGroupNameTable"},
+			{"smartFormatOutline", "cmd/expressions.go", "smartFormatResult"},
+			{"makeArrayOutline", "pkg/expressions/stage.go", "MakeArray"},
 		} {
 			if l, ok := c16Outline(c, c.Func(it.file, it.fn)); ok {
 				fmt.Fprintf(&sb, "/-- control skeleton of `%s` (%s): statement texts without white space, blocks bracketed -/\ndef %s : List String :=\n  %s\n\n", it.fn, it.file, it.lean, leanStrList(l))
